@@ -16,6 +16,7 @@ import (
 	"net"
 	"net/http"
 	"os"
+	"sort"
 	"strings"
 	"sync"
 	"testing"
@@ -367,11 +368,11 @@ func c03Judge(v *c03View, k c03Kind, raw []byte, eof bool) [][2]string {
 	switch v.XAWhere {
 	case "header":
 		if strings.Join(inHeader, ",") != strings.Join(want, ",") || len(inTrailer) != 0 {
-			bad("field-x-a", "X-A in header %q trailer %q, reference header %q", inHeader, inTrailer, want)
+			bad("field-x-a"+c03OrderOnly(inHeader, want, len(inTrailer)), "X-A in header %q trailer %q, reference header %q", inHeader, inTrailer, want)
 		}
 	case "trailer":
 		if strings.Join(inTrailer, ",") != strings.Join(want, ",") || len(inHeader) != 0 {
-			bad("field-x-a-trailer", "X-A in header %q trailer %q, reference trailer %q", inHeader, inTrailer, want)
+			bad("field-x-a-trailer"+c03OrderOnly(inTrailer, want, len(inHeader)), "X-A in header %q trailer %q, reference trailer %q", inHeader, inTrailer, want)
 		}
 	}
 	ck := resp.Header.Values("Set-Cookie")
@@ -421,6 +422,21 @@ func c03Judge(v *c03View, k c03Kind, raw []byte, eof bool) [][2]string {
 		}
 	}
 	return out
+}
+
+// c03OrderOnly returns "-order" when got is a permutation of want (same field lines, other
+// order) and nothing appeared in the other section: the order of field lines is C29's subject.
+func c03OrderOnly(got, want []string, other int) string {
+	if other != 0 || len(got) != len(want) {
+		return ""
+	}
+	a, b := append([]string(nil), got...), append([]string(nil), want...)
+	sort.Strings(a)
+	sort.Strings(b)
+	if strings.Join(a, ",") == strings.Join(b, ",") {
+		return "-order"
+	}
+	return ""
 }
 
 func c03Nontrivial(prog []string, k c03Kind) bool {
